@@ -22,6 +22,13 @@ def t1(sx, hr, size, prefix, rsv, oldlens, lens, long):
     return ndefflow.roundtrip(sx, w, n)
 
 
+def t3(sx, nbr, nbw, nmaxb, oldlens, lens, emulated):
+    oldlen = sx.pick("oldlen", oldlens)
+    w = worlds.T3World(sx, nbr, nbw, nmaxb, oldlen, emulated=emulated)
+    n = sx.pick("n", [x for x in lens_for(w.cap, lens)])
+    return ndefflow.roundtrip(sx, w, n)
+
+
 def lens_for(cap, lens):
     out = []
     for x in lens:
@@ -95,6 +102,19 @@ def partitions(tier):
                           params=dict(hr=hr, size=size, prefix=prefix, rsv=rsv,
                                       oldlens=[0, 5] if size == 120 else [0, 5, 255],
                                       lens=lens, long=True)))
+    # ---- Type 3 (and the library's own Type 3 Tag emulation as the tag)
+    for emulated in (False, True):
+        combos = [(1, 1, 1), (1, 1, 3), (4, 3, 5), (15, 13, 14), (3, 2, 4), (12, 8, 20)]
+        if tier != "quick":
+            combos += [(nbr, nbw, 6) for nbr in (2, 5, 7, 15) for nbw in (1, 4, 6, 13)]
+        for nbr, nbw, nmaxb in combos:
+            parts.append(dict(name="t3%s:%d:%d:%d" % ("emu" if emulated else "", nbr, nbw, nmaxb),
+                              fn="t3", params=dict(nbr=nbr, nbw=nbw, nmaxb=nmaxb, oldlens=[0, 5, 17],
+                                                   lens=[0, 1, 15, 16, 17, 32, "cap-1", "cap", "cap+1"],
+                                                   emulated=emulated)))
+    if tier != "quick":
+        parts.append(dict(name="t3:big", fn="t3", params=dict(nbr=12, nbw=8, nmaxb=300, oldlens=[0],
+                                                             lens=[4081, "cap"], emulated=False)))
     return parts
 
 
